@@ -523,3 +523,302 @@ def spec_state_p(st):
         "msgs": frozenset((m["src"], m["dst"], m["k"], tuple(m["pks"])) for m in st["msgs"]),
         "ret": (st["ret"]["n"], st["ret"]["t"], tuple((i["p"], i["s"], i["seen"]) for i in st["ret"]["lst"])),
     }
+
+
+# ======================================================================================================
+# hidden-services glue: PexCommunity overlays created / dropped by real HiddenTunnelCommunity nodes
+# ======================================================================================================
+class _FakeIPv8:
+    """What HiddenTunnelCommunity needs from the IPv8 service object (as ipv8.test.mocking.ipv8.MockIPv8 offers):
+    overlays, strategies, add_strategy. Strategies are not stepped: the driver does the walks of the PEX overlays."""
+
+    def __init__(self, world, host):
+        self.world, self.host = world, host
+        self.overlays = []
+        self.strategies = []
+
+    def add_strategy(self, overlay, strategy, target_peers):
+        if overlay not in self.overlays:
+            self.overlays.append(overlay)
+            self.world.new_pex(self.host, overlay)
+        self.strategies.append((strategy, target_peers))
+
+
+class GlueWorld:
+    """Seeders S1,S2 - relays R1,R2 - introduction hosts E1..E3 - askers D1..D3 (one 1-hop circuit to the E of the same
+    number), all real HiddenTunnelCommunity overlays with default settings on the simulated network (virtual clock).
+    Specification node j + 3*(k-1) = the PEX overlay of host Ej for info hash k (1 = IH_A, 2 = IH_B)."""
+    UNIT = 100
+    NE = 3
+
+    def __init__(self, t0=10):
+        from ipv8.messaging.anonymization.hidden_services import HiddenTunnelCommunity
+        from ipv8.messaging.anonymization.tunnel import (PEER_FLAG_EXIT_BT, PEER_FLAG_EXIT_IPV8, PEER_FLAG_RELAY,
+                                                         PEER_FLAG_SPEED_TEST)
+
+        from . import simnet
+        from .nodes import Node, introduce_all
+        self.t0 = t0
+        self.loop = vloop.install(vloop.VLoop(start=float(t0 * self.UNIT)))
+        self.net = simnet.attach(self.loop, simnet.SimNet(self.loop, auto=True))
+        self.net.policy = self._policy
+        self.held = []                   # PEX introduction requests / responses waiting for the driver
+        self.tags = {}
+        self.observed = []
+        self.events = []
+        self.ih = {1: IH_A, 2: IH_B}
+        self.prefix_k = {}
+        self.hosts = {}
+        self.last_tick = t0
+
+        def mk(name, flags, **kw):
+            node = Node(self.net)
+            ov = node.add(HiddenTunnelCommunity, peer_flags=flags, **kw)
+            self.hosts[name] = ov
+            return node
+        relay = {PEER_FLAG_RELAY, PEER_FLAG_SPEED_TEST}
+        exitf = {PEER_FLAG_RELAY, PEER_FLAG_EXIT_BT, PEER_FLAG_EXIT_IPV8, PEER_FLAG_SPEED_TEST}
+        nodes = [mk("S1", relay), mk("S2", relay), mk("R1", relay), mk("R2", relay)]
+        for j in range(1, self.NE + 1):
+            nodes.append(mk("E%d" % j, exitf))
+            self.hosts["E%d" % j].ipv8 = _FakeIPv8(self, j)
+            self._spy_dht(self.hosts["E%d" % j])
+        for j in range(1, self.NE + 1):
+            nodes.append(mk("D%d" % j, relay, min_circuits=0, max_circuits=0))
+        self.e_of_key = {self.hosts["E%d" % j].my_peer.public_key.key_to_bin(): j for j in range(1, self.NE + 1)}
+        self.e_of_addr = {tuple(self.hosts["E%d" % j].my_peer.address): j for j in range(1, self.NE + 1)}
+        self.seeder_idx = {}             # seeder public key -> index (order of first appearance)
+        self.ip_circuit = {}             # (seeder host, E, k) -> circuit id at the seeder
+        self.ask_circuit = {}
+        introduce_all(nodes)
+        self.loop.settle()
+        introduce_all(nodes)
+        self.loop.settle()
+        for s in ("S1", "S2"):
+            for k in (1, 2):
+                self.hosts[s].join_swarm(self.ih[k], 1, None, True)
+        self.saw_dht = False
+        self.unreachable = 0
+        for j in range(1, self.NE + 1):
+            self._ask_circuit(j)
+
+    # ---- plumbing
+    def _spy_dht(self, eov):
+        orig = eov.dht_lookup
+
+        async def dht_lookup(info_hash):       # on_peers_request falls back to the DHT when it has no PEX overlay
+            self.saw_dht = True
+            return await orig(info_hash)
+        eov.dht_lookup = dht_lookup
+
+    def _ask_circuit(self, j):
+        """Dj's 1-hop circuit to Ej (data circuits live for settings.max_time = 1 h: rebuilt when it is gone)."""
+        d, e = self.hosts["D%d" % j], self.hosts["E%d" % j]
+        c = self.ask_circuit.get(j)
+        if c is None or d.circuits.get(c.circuit_id) is not c or c.state != "READY":
+            c = d.create_circuit(1, required_exit=self._cand(d, e))
+            self.loop.run_until_complete(c.ready)
+            self.loop.settle()
+            self._check_clock()
+            self.ask_circuit[j] = c
+            self.rebuilt = getattr(self, "rebuilt", 0) + 1
+        return c
+
+    def _cand(self, ov, other):
+        key = other.my_peer.public_key.key_to_bin()
+        for p in ov.candidates:
+            if p.public_key.key_to_bin() == key:
+                return p
+        raise MachineryError("host does not know the candidate it needs")
+
+    def _check_clock(self):
+        if self.loop.time() % self.UNIT:
+            raise MachineryError("the virtual clock left the tick grid: %r" % self.loop.time())
+
+    def _policy(self, dg):
+        if len(dg.data) > 22 and dg.data[:22] in self.prefix_k and dg.data[22] in (246, 234, 245, 233):
+            self.held.append(dg)
+            return []
+        return None
+
+    def node_id(self, j, k):
+        return j + self.NE * (k - 1)
+
+    def pex_of(self, n):
+        j, k = (n - 1) % self.NE + 1, (n - 1) // self.NE + 1
+        com = self.hosts["E%d" % j].pex.get(self.ih[k])
+        if com is not None and com.done:
+            return None          # announces nothing any more: remove_exit_socket is dropping it in this very call
+        return com
+
+    def sidx(self, pk):
+        if pk not in self.seeder_idx:
+            self.seeder_idx[pk] = len(self.seeder_idx) + 1
+        return self.seeder_idx[pk]
+
+    def seeder_index(self, s, k):
+        return self.sidx(self.hosts[s].swarms[self.ih[k]].seeder_sk.pub().key_to_bin())
+
+    def new_pex(self, j, com):
+        k = 1 if com.community_id == (int.from_bytes(IH_A, "big") + 1).to_bytes(20, "big") else 2
+        n = self.node_id(j, k)
+        self.prefix_k[bytes(com.get_prefix())] = k
+        start, stop, get, pks = com.start_announce, com.stop_announce, com.get_intro_points, com.get_seeder_pks
+
+        def start_announce(pk):
+            start(pk)
+            self._event("StartAnnounce", n=n, s=self.sidx(pk))
+
+        def stop_announce(pk):
+            had = pk in com.intro_points_for
+            stop(pk)
+            if had:
+                self._event("StopAnnounce", n=n, s=self.sidx(pk))
+
+        def get_intro_points():
+            lst = get()
+            self.last_answer = [self._ip(i, k) for i in lst]
+            self._event("GetIntroPoints", n=n, lst=[list(x) for x in self.last_answer])
+            return lst
+
+        def get_seeder_pks():
+            blob = pks()
+            keys, _ = com.serializer.unpack("varlenH-list", blob)
+            self.observed.append((n, tuple(self.sidx(x) for x in keys)))
+            return blob
+        com.start_announce, com.stop_announce = start_announce, stop_announce
+        com.get_intro_points, com.get_seeder_pks = get_intro_points, get_seeder_pks
+
+    def _ip(self, ip, k):
+        key = ip.peer.public_key.key_to_bin()
+        if key not in self.e_of_key:
+            raise Mismatch("introduction point of a peer that is no introduction host")
+        return (self.node_id(self.e_of_key[key], k), self.sidx(ip.seeder_pk), _ticks(ip.last_seen, self.UNIT, "last_seen"))
+
+    def _now(self):
+        return int(self.loop.time() // self.UNIT)
+
+    def project(self):
+        pfor, pips = [], []
+        for n in range(1, 2 * self.NE + 1):
+            com = self.pex_of(n)
+            k = (n - 1) // self.NE + 1
+            pfor.append([self.sidx(x) for x in com.intro_points_for] if com else [])
+            pips.append([list(self._ip(i, k)) for i in com.intro_points] if com else [])
+        return pfor, pips
+
+    def _flush_ticks(self):
+        while self.last_tick < self._now():
+            self.last_tick += 1
+            pfor, pips = self.project()
+            self.events.append({"a": "PTick", "now": self.last_tick, "sent": [], "pfor": pfor, "pips": pips})
+
+    def _event(self, a, sent=(), **kw):
+        self._flush_ticks()
+        pfor, pips = self.project()
+        ev = {"a": a, "now": self._now(), "sent": [[t[0], t[1], t[2], list(t[3])] for t in sent], "pfor": pfor,
+              "pips": pips}
+        ev.update(kw)
+        self.events.append(ev)
+
+    def _tag_new(self):
+        new = []
+        for dg in self.held:
+            if dg.seq in self.tags:
+                continue
+            k = self.prefix_k[dg.data[:22]]
+            src, dst = self.e_of_addr.get(tuple(dg.src)), self.e_of_addr.get(tuple(dg.dst))
+            if src is None or dst is None or not self.observed:
+                raise Mismatch("unexpected PEX datagram %r" % (dg,))
+            n, pks = self.observed.pop(0)
+            if n != self.node_id(src, k):
+                raise Mismatch("get_seeder_pks of node %s, datagram of node %s" % (n, self.node_id(src, k)))
+            self.tags[dg.seq] = (n, self.node_id(dst, k), "req" if dg.data[22] in (246, 234) else "resp", pks)
+            new.append(self.tags[dg.seq])
+        return new
+
+    def inflight(self):
+        return sorted({self.tags[d.seq] for d in self.held})
+
+    # ---- driver operations
+    def establish(self, s, j, k):
+        """Seeder host s makes Ej an introduction point for its key in swarm k."""
+        sov, eov = self.hosts[s], self.hosts["E%d" % j]
+        if (s, j, k) in self.ip_circuit:
+            return False
+        before = set(sov.circuits)
+        self.loop.run_until_complete(sov.create_introduction_point(self.ih[k], required_ip=self._cand(sov, eov)))
+        self.loop.settle()
+        new = [c for c in set(sov.circuits) - before if sov.circuits[c].ctype == "IP_SEEDER"]
+        if len(new) != 1:
+            raise MachineryError("introduction circuit was not created")
+        self.ip_circuit[(s, j, k)] = new[0]
+        self._check_clock()
+        return True
+
+    def teardown(self, s, j, k):
+        sov = self.hosts[s]
+        cid = self.ip_circuit.pop((s, j, k))
+        sov.remove_circuit(cid, "driver", destroy=2)
+        self.loop.settle()
+        self._check_clock()
+
+    def walk(self, n, m):
+        com = self.pex_of(n)
+        if com is None:
+            return False
+        j = (m - 1) % self.NE + 1
+        com.walk_to(self.hosts["E%d" % j].my_peer.address)
+        self.loop.settle()
+        sent = self._tag_new()
+        self._event("Walk", sent=sent, n=n, m=m)
+        return True
+
+    def deliver(self, tag, lose=False):
+        dgs = [d for d in self.held if self.tags[d.seq] == tag]
+        for d in dgs:
+            self.held.remove(d)
+        msg = [tag[0], tag[1], tag[2], list(tag[3])]
+        if lose:
+            self._event("Lose", msg=msg)
+            return
+        self.net.deliver(dgs[0])
+        self.loop.settle()
+        sent = self._tag_new()
+        self._event("Deliver", sent=sent, msg=msg)
+
+    def ask(self, j, k):
+        """Dj sends a peers-request for swarm k over its circuit; Ej answers from its PEX overlay (if it has one)."""
+        d = self.hosts["D%d" % j]
+        self._ask_circuit(j)
+        self.last_answer = None
+        self.saw_dht = False
+        nev = len(self.events)
+        fut = d.send_peers_request(self.ih[k], None, 1)
+        self.loop.settle()
+        answered = self.last_answer is not None
+        problems = []
+        if answered:
+            if not fut.done() or fut.exception():
+                problems.append("the peers-request was answered by the PEX overlay but no response arrived")
+            else:
+                got = [(self._ip(i, k)[0], self._ip(i, k)[1]) for i in fut.result()]
+                have = [(x[0], x[1]) for x in self.last_answer]
+                if len(got) != min(7, len(have)) or len(set(got)) != len(got) or not set(got) <= set(have):
+                    problems.append("peers-response %r is not a sample of get_intro_points() = %r" % (got, have))
+                if len(self.events) != nev + 1:
+                    problems.append("one peers-request produced %d PEX events" % (len(self.events) - nev))
+        elif self.saw_dht:
+            if self.pex_of(self.node_id(j, k)) is not None:
+                problems.append("E%d has a PEX overlay for swarm %d but went to the DHT instead of answering from it"
+                                % (j, k))
+        else:
+            self.unreachable += 1     # the request did not reach on_peers_request (circuit trouble): not a PEX matter
+        if not fut.done():
+            fut.cancel()
+        return problems
+
+    def tick(self):
+        self.loop.advance(self.UNIT)
+        self._check_clock()
+        self._flush_ticks()
